@@ -233,6 +233,7 @@ inline int finish(){
 		else { unlisted++; printf("VIOLATION property=%s replay=%s\n",c.prop.c_str(),path.c_str()); printf("  signature: %s\n  what: %s\n",v.sig.c_str(),v.what.c_str()); }
 	}
 	double wall=elapsed();
+	if(c.replay_file.empty()&&c.samples.empty()&&c.viol.empty()){ fprintf(stderr,"harness error: no sample cases were recorded\n"); c.harness_error=true; }
 	if(c.replay_file.empty()){
 		std::ostringstream o; o<<"{\n \"property_id\": "<<jstr(c.prop)<<",\n \"tier\": "<<jstr(c.tier)<<",\n \"seed\": "<<c.seed<<",\n \"level\": "<<jstr(c.level)<<",\n \"coverage\": {\n";
 		if(c.level=="model_checking"){ o<<"  \"states\": "<<c.states<<",\n  \"transitions\": "<<c.transitions<<",\n  \"traces_validated_against_impl\": "<<c.traces<<",\n"; }
